@@ -1,0 +1,9 @@
+//go:build !verif
+// +build !verif
+
+package ed25519
+
+// verifHooks reports whether the verification hooks are compiled in.
+const verifHooks = false
+
+func verifNoteFallback(offset, size int) {}
